@@ -243,6 +243,8 @@ func runC07(c *Ctx) {
 	// R23 (= C08.O13): a read from the stream that failed is the last one (a time-out in the middle of a frame must
 	// not be followed by a read that takes the rest of the payload for frame headers)
 	checkFailedReadIsFinal(c, "R23", 8)
+	// R24 (= C04.R10): after a reply write that failed part-way nothing more is written into the torn frame
+	checkWriteFailureLatched(c, "R24")
 	checkShortInputIsReported(c, "R22")
 	// R13 (shared with C02.R0): a well-formed request of every type makePacket can build lands in a case of the os
 	// server's dispatcher that answers it; the default arm returns an error, which ends the command worker without a
